@@ -51,6 +51,9 @@ class Mux(Client, Server):
         self.request(PDU(pdu, source=self.unicast_tuple, destination=dest))
 
     def confirmation(self, pdu):
+        if getattr(self, "drop_results", 0) and bytes(pdu.pduData)[:2] == b"\x81\x00":
+            self.drop_results -= 1          # fault injection: a BVLC-Result addressed to this node is lost on its last leg
+            return
         src = Address(pdu.pduSource)
         if pdu.pduDestination == self.broadcast_tuple:
             dest = LocalBroadcast()
